@@ -507,7 +507,8 @@ class _BooleanExpression(_PatternExpression):
         self.operands = list(operands)
         for arg in self.operands:
             if not hasattr(self, "root_types"):
-                self.root_types = arg.root_types
+                # a copy: the in-place updates below must not change the operand's own set
+                self.root_types = set(arg.root_types)
             elif operator == "AND":
                 self.root_types &= arg.root_types
             else:
